@@ -62,8 +62,10 @@ def _is_buffer(n, adt, depth=0):
                 continue
             return False
         return yes > 0
-    if n[0] == 'field' and n[2] and n[2][-1][0] == 'f' and n[2][-1][1] == 'buffer':
-        return True       # strip() already looked through as_ref
+    if n[0] == 'field' and n[2]:
+        labs = [p for p in n[2] if p[0] != '*']
+        if labs and labs[-1][0] == 'f' and labs[-1][1] == 'buffer':
+            return True       # strip() already looked through as_ref; trailing derefs: `&mut T` buffers
     if n[0] == 'call' and n[1].rsplit('::', 1)[-1] in ('as_ref', 'as_mut') and len(n[2]) == 1:
         return _is_buffer(n[2][0], adt, depth + 1)
     return False
@@ -97,6 +99,7 @@ class Eval:
         self.adt = adt
         self.bytemap = bytemap or {}     # byte -> bits currently stored (setter, after earlier stores)
         self.sub_hook = sub_hook         # node -> number of significant bits of `x - K` (from dominating guards)
+        self.opaque_calls_ok = False
 
     def byte(self, k):
         if k in self.bytemap:
@@ -131,6 +134,9 @@ class Eval:
             base, path = n[1], n[2]
             if _is_buffer(base, self.adt) and len(path) == 1 and path[0][0] == 'i' and isinstance(path[0][1], int):
                 return (self.byte(path[0][1]) + [0] * width)[:width]
+            b0 = strip(base)
+            if b0[0] == 'arg' and all(p[0] in ('f', 'dc', '*') for p in path):
+                return [('a', b0[1], i) for i in range(width)]      # the raw value inside a newtype / flags argument
             raise Undecided('proj')
         if k == 'un':
             if n[1] == 'Not':
@@ -200,7 +206,18 @@ class Eval:
                 inner_w = self.width_of(n[2][0], default=width)
                 bits = self.ev(n[2][0], inner_w, depth + 1)
                 return (bits + [0] * width)[:width]
-            raise Undecided('call ' + last)
+            OPS = {'shr': 'Shr', 'shl': 'Shl', 'bitand': 'BitAnd', 'bitor': 'BitOr', 'bitxor': 'BitXor'}
+            if last in OPS and len(n[2]) == 2 and '::ops::' in nm:
+                return self.ev(('bin', OPS[last], n[2][0], n[2][1]), width, depth + 1)
+            if not self.opaque_calls_ok:
+                raise Undecided('call ' + last)
+            # any other call: an unknown function of its arguments (dependence only; setters' value side)
+            deps = []
+            for a in n[2]:
+                w = self.width_of(a, default=8) or 8
+                deps += self.ev(a, w, depth + 1)
+            m = mix(*deps)
+            return [m] * width
         if k == 'phi':
             alts = [self.ev(a, width, depth + 1) for a in n[1]]
             out = []
@@ -281,6 +298,14 @@ def ty_width(ty):
     return TYW.get(ty)
 
 
+def _expand(F, n, adt):
+    from .wirelib import expand
+    try:
+        return simplify(expand(F, n, adt))
+    except Exception:
+        return n
+
+
 def getter_bits(F, body, adt):
     """bits of the returned value"""
     r = simplify(ret_origin(F, body))
@@ -297,10 +322,14 @@ def getter_bits(F, body, adt):
     return ev.ev(r, w)
 
 
-def setter_stores(F, body, adt, only_blocks=None, sub_hook=None, ignore_calls=()):
+def setter_stores(F, body, adt, only_blocks=None, sub_hook=None, ignore_calls=(), lenient=False, submaps=None):
     """dict byte -> stored bits, for a setter whose stores are element stores / write_uN on constant ranges.
-    Raises Undecided on anything else that touches the buffer."""
+    Raises Undecided on anything else that touches the buffer.
+    lenient=True (used for "which header bits does an emit define at all"): stores that cannot be evaluated are
+    skipped, bulk stores on constant ranges define whole bytes, calls of methods found in `submaps` contribute the
+    bits they define, later stores compose over earlier ones.  The result then is a may-define map."""
     og = F.origin
+    DEF = ('m', frozenset([('a', 0, 0)]))
     bytemap = {}
     ev = Eval(F, adt, bytemap)
     order = list(range(len(body.blocks)))
@@ -320,21 +349,33 @@ def setter_stores(F, body, adt, only_blocks=None, sub_hook=None, ignore_calls=()
             if not _is_buffer(base, adt):
                 # a store through some other reference (e.g. an iterator element of the buffer)
                 b0 = strip(base)
-                if 'buffer' in show(b0):
+                if 'buffer' in show(b0) and not lenient:
                     raise Undecided('store through derived reference')
                 continue
             if len(path) != 2 or path[1][0] != 'i':
+                if lenient:
+                    continue
                 raise Undecided('store shape')
             from .wirelib import expand
             idx = const_of(expand(F, simplify(og.operand(body, ['c', [path[1][1], []]], bi, si)), adt))
             if idx is None:
+                if lenient:
+                    continue
                 raise Undecided('store at non-constant index')
             rv = simplify(og.rvalue(body, s[2], bi, si, 0, None))
+            rv = _expand(F, rv, adt)
             if rv is None:
                 raise Undecided('no rvalue origin')
-            if idx in bytemap:
+            if idx in bytemap and not lenient:
                 raise Undecided('byte stored twice')
-            bits = Eval(F, adt, dict(bytemap), hook).ev(rv, 8)
+            e_ = Eval(F, adt, dict(bytemap), hook)
+            e_.opaque_calls_ok = True
+            try:
+                bits = e_.ev(rv, 8)
+            except Undecided:
+                if not lenient:
+                    raise
+                bits = [mix(x, DEF) if x not in (0, 1) else DEF for x in e_.byte(idx)]     # unknown: may keep old content
             bytemap[idx] = bits
             touched = True
         t = bl['t']
@@ -348,29 +389,62 @@ def setter_stores(F, body, adt, only_blocks=None, sub_hook=None, ignore_calls=()
                 dst = og.operand(body, args[0], bi, si)
                 r = _slice_of_buffer(F, dst, adt)
                 if r is None:
-                    if 'buffer' in show(strip(dst)):
+                    if 'buffer' in show(strip(dst)) and not lenient:
                         raise Undecided('write to non-constant range')
                     continue
                 nb = WRITES[last]
                 if r[1] - r[0] != nb:
                     raise Undecided('range width')
-                val = simplify(og.operand(body, args[1], bi, si))
+                val = _expand(F, simplify(og.operand(body, args[1], bi, si)), adt)
                 w = {2: 16, 3: 32, 4: 32, 6: 64, 8: 64}[nb]
-                bits = Eval(F, adt, dict(bytemap), hook).ev(val, w)
+                e_ = Eval(F, adt, dict(bytemap), hook)
+                e_.opaque_calls_ok = True
+                try:
+                    bits = e_.ev(val, w)
+                except Undecided:
+                    if not lenient:
+                        raise
+                    bits = None
                 little = 'LittleEndian' in nm
                 for j in range(nb):
                     byte = r[0] + j if little else r[1] - 1 - j
-                    if byte in bytemap:
+                    if byte in bytemap and not lenient:
                         raise Undecided('byte stored twice')
+                    if bits is None:
+                        bytemap[byte] = [mix(x, DEF) if x not in (0, 1) else DEF for x in e_.byte(byte)]
+                        continue
                     bytemap[byte] = bits[8 * j:8 * j + 8]
                 touched = True
             elif last in ('copy_from_slice', 'fill', 'clone_from_slice', 'swap', 'reverse'):
                 dst = og.operand(body, args[0], bi, si) if args else None
                 if dst is not None and 'buffer' in show(strip(dst)):
-                    raise Undecided('bulk store')
+                    if not lenient:
+                        raise Undecided('bulk store')
+                    r = _slice_of_buffer(F, dst, adt)
+                    if r is not None and last in ('copy_from_slice', 'fill', 'clone_from_slice'):
+                        for byte in range(r[0], r[1]):
+                            bytemap[byte] = [DEF] * 8
+                        touched = True
+            elif submaps is not None and nm in submaps and nm not in ignore_calls:
+                for byte, bits in submaps[nm].items():
+                    cur = bytemap.get(byte, [('b', byte, i) for i in range(8)])
+                    new = list(cur)
+                    for i, x in enumerate(bits):
+                        if x == ('b', byte, i):
+                            continue
+                        if x in (0, 1) or not any(a[0] == 'b' for a in atoms(x)):
+                            new[i] = x if x in (0, 1) else DEF
+                        else:
+                            # the callee mixes the old bit: old as seen by the callee is our current value
+                            new[i] = cur[i] if cur[i] in (0, 1) or not any(a[0] == 'b' for a in atoms(cur[i])) else mix(cur[i], DEF)
+                    bytemap[byte] = new
+                touched = True
             elif nm.startswith('wire::') and '::set_' in nm and nm not in ignore_calls:
-                raise Undecided('delegates to another setter')
+                if not lenient:
+                    raise Undecided('delegates to another setter')
     if not touched:
+        if lenient:
+            return {}
         raise Undecided('no store found')
     return bytemap
 
